@@ -54,6 +54,7 @@ def guards():
     add("Taste repaired (pairs)", mc("MC_Taste", t, tinv), None)
     add("Taste first header unchecked", mc("MC_Taste", dict(t, CheckFirstHeader="FALSE"), tinv), "RejectsDamaged")
     add("Taste no end-of-file rule", mc("MC_Taste", dict(t, EOFRule="FALSE", MaxCorrupt=1, Kinds='{"Extend"}'), tinv), "RejectsDamaged")
+    add("Taste first header unchecked (cut header)", mc("MC_Taste", dict(t, CheckFirstHeader="FALSE", MaxCorrupt=1, Kinds='{"HeadCut"}'), tinv), "RejectsDamaged")
     add("Taste header-order walk", mc("MC_Taste", dict(t, SortOffsets="FALSE", MaxCorrupt=0, Kinds="{}", MaxBox=3), tinv), "AcceptsWellFormed")
     r06 = dict(MaxLev=1, MaxBox=3, MaxFile=2, MaxBox2=1, W=2, SchedMode='"fifo"', MapOrder='"disk"', ModeAssign='"assign"')
     F = {"F1": '<<"a","b">>', "F2": '<<"a","c">>'}
@@ -77,6 +78,10 @@ def guards():
     add("C11 repaired", mc("MC_C11", r11, ["CookRefines"], N3), None)
     add("C11 new names first", mc("MC_C11", dict(r11, NamesOrder='"new_first"'), ["CookRefines"], N3), "CookRefines")
     add("C11 header-order offset map", mc("MC_C11", dict(r11, MapOrder='"header"'), ["CookRefines"], N3), "CookRefines")
+    cc = dict(MaxCooks=2, ClearPolicy='"always"')
+    add("ChefCache repaired", mc("ChefCache", cc, ["EveryCookUsesItsOwnState"]), None)
+    add("ChefCache pool never dropped", mc("ChefCache", dict(cc, ClearPolicy='"never"'), ["EveryCookUsesItsOwnState"]), "EveryCookUsesItsOwnState")
+    add("ChefCache pool dropped for new shapes only", mc("ChefCache", dict(cc, ClearPolicy='"new_shapes"'), ["EveryCookUsesItsOwnState"]), "EveryCookUsesItsOwnState")
     r12 = dict(MaxN=3, MaxW=3, Gather='"by_task"')
     add("C12 repaired", mc("MC_C12", r12, ["ScheduleFree"]), None)
     add("C12 gather by arrival", mc("MC_C12", dict(r12, Gather='"by_arrival"'), ["ScheduleFree"]), "ScheduleFree")
